@@ -16,7 +16,8 @@ RULE = ("programs: Hypothesis build programs (<= 8 items per circuit, nesting <=
         "once per run against stim.gate_data unitaries / flags: H, I, X, Y, +-90 degree X/Y rotations, CZ, R, M) applied "
         "to the operation listing; the export, with REPEAT blocks expanded and fused targets split, must equal the "
         "listing translated one by one with every sub-circuit expanded in place and repeated its count; unsupported kinds "
-        "omitted, nothing else present; after apply_modifiers() the export equals the translated (now count-free) "
+        "omitted, nothing else present; the instruction multiset must also equal the translation of the program's own "
+        "items x enclosing counts (annotations keep their fields through every copy); after apply_modifiers() the export equals the translated (now count-free) "
         "listing, and has the same instruction multiset and measurement count as before. library: repetition-code "
         "circuits d=2..4, 0..6 cycles: identical expanded program before / after unrolling. Non-trivial = >= 1 "
         "unsupported kind, >= 1 annotation and >= 1 nested block; distinct = canonical JSON.")
@@ -105,6 +106,38 @@ def translate(op):
             t = [m, sec - (last + 1), -ref, -ref - soff]
         return ("DETECTOR", tuple(("rec", x) for x in t), args)
     return None
+
+
+class _ItemView:
+    """Duck-typed view of a program item with the attribute names `translate` reads from library objects."""
+
+    def __init__(self, it):
+        k, q = it["k"], it["q"]
+        self.__class__ = type(k, (_ItemView,), {})
+        if len(q) >= 1:
+            self.qubit_index = q[0]
+        if k == "CPhase":
+            self.control_qubit_index, self.target_qubit_index = q
+        if k == "CoordinateShiftOperation":
+            self.time_shift, self.space_shift = it["f"]
+        if k == "DetectorOperation":
+            (self.last_acquisition_index, self.main_target, self.secondary_target, self.reference_offset,
+             self.secondary_offset) = it["f"]
+        if k == "LogicalObservableOperation":
+            self.last_acquisition_index, self.main_target = it["f"]
+
+
+def program_token_multiset(circ, factor=1, out=None):
+    """Multiset of expected tokens computed from the PROGRAM (not from library objects): leaves x enclosing counts."""
+    out = {} if out is None else out
+    for it in circ["items"]:
+        if P.is_sub(it):
+            program_token_multiset(it["sub"], factor * it["sub"].get("reps", 1), out)
+        else:
+            t = translate(_ItemView(it))
+            if t is not None:
+                out[t] = out.get(t, 0) + factor
+    return out
 
 
 def expected_tokens(comp):
@@ -227,6 +260,12 @@ def body(case, ctx):
         return
     if got1 != exp1:
         ctx.fail("export-built", f"export of the built circuit differs from its translated listing: {first_diff(exp1, got1)}", facts)
+    want = program_token_multiset(program["top"])
+    if multiset(got1) != want:
+        missing = [k for k in want if multiset(got1).get(k, 0) < want[k]][:3]
+        extra = [k for k in multiset(got1) if want.get(k, 0) < multiset(got1)[k]][:3]
+        ctx.fail("export-vs-program", f"exported instructions are not the image of the operations that were added: "
+                 f"missing {missing}, unexpected {extra}", facts)
     exp2 = got2 = None
     with ctx.lib("unroll + export"):
         mod = b.circuit.apply_modifiers()
